@@ -188,7 +188,7 @@ def replay_mc(rep, tier, wd):
         src = "switch (%s) " % R.val_src(ln["v"]) + " ".join(
             "case %s -> %s" % (R.pat_src(a, True), arm_body("arm%d" % (j + 1), names_of(a))) for j, a in enumerate(arms))
         # the same switch with arm bodies that raise: a matched arm whose body raises ends the switch
-        src2 = "switch (%s) " % R.val_src(ln["v"]) + " ".join(
+        src2 = "switch (%s) " % R.val_src(ln["v"], big=True) + " ".join(
             "case %s -> throw \"arm%d\"" % (R.pat_src(a, True), j + 1) for j, a in enumerate(arms))
         items.append({"steps": [{"src": src}, {"src": src2}], "group": 0})
         meta.append(ln)
